@@ -13,7 +13,7 @@
    just performed.  m^(-kappa) is written exp (- kappa * ln m). *)
 From MiniMcmc Require Import Model.DualAvg Proofs.DualAvg Model.FindEps Proofs.FindEps Proofs.FindEpsX.
 From Coq Require Import Reals Qreals List.
-From Interval Require Import Interval Xreal Tactic.
+From Interval Require Import Interval Xreal.
 Open Scope R_scope.
 
 Section C04.
@@ -355,7 +355,9 @@ Example C04_find_eps_example :
   find_eps (fun e => - (16 * e * e)) 5 = Some (1 / 8) /\
   find_eps (fun e => - (e * e / 16)) 5 = Some 4.
 Proof.
-  assert (Hb : - (7 / 10) < ln (1 / 2) < - (69 / 100)) by (split; interval with (i_prec 40)).
+  assert (Hb : - (7 / 10) < ln (1 / 2) < - (69 / 100)).
+  { pose proof lnhalf_bounds as Hq. unfold lnhalf_lo, lnhalf_hi, Q2R in Hq. cbn [Qnum Qden] in Hq.
+    split; Lra.lra. }
   pose proof ln_half as Hl.
   split; unfold find_eps, direction; cbv zeta.
   - destruct (Rlt_dec (ln (1 / 2)) (- (16 * 1 * 1))) as [H|H]; [exfalso; Lra.lra|].
